@@ -23,13 +23,20 @@ type vpReplayFile struct {
 	Harness  string            `json:"harness"`
 	Inputs   map[string]string `json:"inputs"`
 	Chooses  [][2]string       `json:"chooses"`
-	Resumes  []string          `json:"resumes"`
+	Resumes  []vpResume        `json:"resumes"`
 	Records  map[string]string `json:"records"` // base64-free: raw JSON text per symbolic record name
 	Threaded bool              `json:"threaded"`
 	Expect   string            `json:"expect"`
 	Repeat   int               `json:"repeat"`
 	Spin     bool              `json:"spin"` // a goroutine parks at a yield while holding a mutex: step by spinning, not synctest.Wait
 	Race     bool              `json:"race"` // race-detector run: no baton, no recording (both add synchronisation)
+}
+
+type vpResume struct {
+	Label  string   `json:"label"`
+	Lazy   bool     `json:"lazy"`
+	Parked []string `json:"parked"`
+	At     int64    `json:"at"`
 }
 
 type vpOutcome struct {
